@@ -2,7 +2,7 @@
 //! fit, identical bytes when it fits; no heap allocation inside `Node::run`.
 use crate::fw::*;
 use crate::gen::tree::*;
-use crate::mon::capdispatch::{run_cap, CAPS};
+use crate::mon::capdispatch::{run_cap, run_cap_pre, CAPS};
 use crate::mon::dev::*;
 use crate::mon::tree::*;
 use crate::props::c04::corrupt;
@@ -93,9 +93,15 @@ pub fn run(cfg: &Cfg, rep: &mut Report) {
             } else {
                 plan.msg.clone()
             };
+            // now and then both buffers still hold something (a response that was not cleared away): whatever the
+            // library makes of that, it makes the same of it in both formatters
+            let pre: &[u8] = if rng.chance(1, 6) { *rng.pick(&[&b"7\n"[..], b"1", b"A 1;", b"\"x\"\n", b";"]) } else { &[] };
+            if !pre.is_empty() {
+                ctx.count("runs.buffer-not-empty-at-start");
+            }
             // reference run with the growable buffer
             dev.clear();
-            let mut full: Vec<u8> = Vec::new();
+            let mut full: Vec<u8> = pre.to_vec();
             c.mav = rng.chance(1, 3);
             let r_full = built.root().run(&msg, &mut dev, &mut c, &mut full);
             let inv_full = dev.invocations().len();
@@ -111,9 +117,12 @@ pub fn run(cfg: &Cfg, rep: &mut Report) {
                 CAPS.iter().copied().filter(|c| *c <= maxcap || (*c >= full.len() && [200, 255, 256, 4096].contains(c))).collect()
             };
             for cap in caps {
+                if cap < pre.len() {
+                    continue;
+                }
                 bump(ctx, 1);
                 dev.clear();
-                let cr = run_cap(cap, built.root(), &msg, &mut dev, &mut c).unwrap();
+                let cr = run_cap_pre(cap, pre, built.root(), &msg, &mut dev, &mut c).unwrap();
                 let detail = || {
                     jobj(&[("message", jbytes(&msg)), ("capacity", cap.to_string()), ("growable_result", jstr(&format!("{:?}", r_full.as_ref().err().map(|e| e.get_code())))), ("growable_response", jbytes(&full)), ("result", jstr(&format!("{:?}", cr.result.as_ref().err().map(|e| e.get_code())))), ("buffer", jbytes(&cr.buf)), ("allocations", cr.allocs.to_string())])
                 };
